@@ -39,8 +39,37 @@ def jobs_stall(rng, thorough):
     return out
 
 
+def realtime_pass(ctx):
+    """real threads, real time.sleep / time.monotonic, no scheduler and no shims (fresh interpreter): lower bounds on the gaps hold in real
+    time too, so this cannot flake; it does not depend on which blocking primitives the library uses"""
+    import os
+    import subprocess
+    specs = [{"threads": 3, "cmds": 4}] if ctx.tier != "thorough" else [{"threads": t, "cmds": c} for t, c in ((1, 12), (2, 10), (3, 8), (4, 6), (4, 10))]
+    procs = [(sp, subprocess.Popen([core.PY, "-m", "harness.realtime", json.dumps(sp)], cwd=core.VERIF, stdout=subprocess.PIPE, stderr=subprocess.PIPE, text=True,
+                                   env={**os.environ, "YNCA_REPO": core.REPO})) for sp in specs]
+    for sp, pr in procs:
+        try:
+            out, err = pr.communicate(timeout=120)
+        except subprocess.TimeoutExpired:
+            pr.kill()
+            raise RuntimeError("real-time run did not finish")
+        if pr.returncode != 0:
+            raise RuntimeError("real-time run failed (harness problem, not a verdict): " + err[-600:])
+        r = json.loads(out.strip().splitlines()[-1])
+        ctx.case(("realtime", json.dumps(sp, sort_keys=True)))
+        ctx.count("realtime_runs")
+        ctx.count("realtime_writes", r["writes"])
+        ctx.cov["realtime_min_gap_ms"] = min(ctx.cov.get("realtime_min_gap_ms", 10 ** 9), r["min_gap_ms"] if r["min_gap_ms"] is not None else 10 ** 9)
+        if r["min_gap_ms"] is not None and r["min_gap_ms"] < 100.0 - 0.5:
+            ctx.violation(f"[realtime] two lines were written {r['min_gap_ms']} ms apart (real threads, time.monotonic at the entry of write())",
+                          {"path": "realtime", "spec": sp, "gaps_ms": r["gaps_ms"], "texts": r["texts"]}, {"kind": "realtime-gap"})
+        if r["writes"] < r["expected"]:
+            ctx.violation(f"[realtime] only {r['writes']} of {r['expected']} lines were written", {"path": "realtime", "spec": sp, "texts": r["texts"]}, {"kind": "realtime-missing"})
+
+
 def run(ctx: core.Ctx):
     ctx.lean_stage(extra_props=("Tie",))
+    realtime_pass(ctx)
     b2check.run_b2(ctx, jobs, ["C08"], label="traffic + lifecycle scenarios")
     b2check.run_b2(ctx, jobs_slow, MONS, label="slow (blocking) writes, monitor only", accept=False)
     b2check.run_b2(ctx, jobs_stall, MONS, label="sender held back at arbitrary statements, monitor only", accept=False)
@@ -50,4 +79,11 @@ def run(ctx: core.Ctx):
 
 
 def replay(ctx, path):
-    return b2check.replay_b2(json.load(open(path))["replay"], ["C08"])
+    rp = json.load(open(path))["replay"]
+    if rp.get("path") == "realtime":
+        import subprocess
+        out = subprocess.run([core.PY, "-m", "harness.realtime", json.dumps(rp["spec"])], cwd=core.VERIF, capture_output=True, text=True).stdout
+        print(out)
+        r = json.loads(out.strip().splitlines()[-1])
+        return 1 if (r["min_gap_ms"] is not None and r["min_gap_ms"] < 99.5) or r["writes"] < r["expected"] else 0
+    return b2check.replay_b2(rp, ["C08"])
